@@ -1,1 +1,163 @@
-/-! C07 — property theorems (placeholder until the model exists). -/
+import EupsModel.Lemmas.CacheInv
+/-! C07 — answers served from the product cache equal the answers in the database files.
+Property theorems only; model `Model/Cache.lean` over `Model/Db.lean`, lemmas in `Lemmas/Agree.lean`
+(commutation) and `Lemmas/CacheInv.lean` (the invariant and its preservation).
+
+A *history* is any list of `WCmd`: processes of any user (each user has his own cache files) and flavor
+running any command, each optionally killed between the database update and the cache update of its k-th
+`Database` mutation, and deletions of cache files, in any order.  `viaCache w u f` is what a fresh process of
+user `u` and flavor `f` holds in memory after `Eups.__init__` (accepted cache files or rebuilt stacks);
+`w.db` is what the files say. -/
+namespace EupsModel.C07
+open EupsModel.Db EupsModel.Cache
+
+/-- **Commutation, per operation.**  If the in-memory stacks agree with the database on a (stack, flavor,
+product) slice, then after `addProduct` / `removeProduct` / `assignTag` / `unassignTag` they agree with the
+database after `Database.declare` / `undeclare` / `assignTag` / `unassignTag`. -/
+theorem C07_commute (e : Eff) (m db : Spec) (hdb : NoDangling db) (s : Nat) (f : Flav) (n : Name)
+    (h : AgreeOnN m db s f n) : AgreeOnN (applyMem e m) (applyDb e db) s f n :=
+  commute_all e m db hdb s f n h
+
+/-- On the pinned tree the commutation lemma is false for `removeProduct`: the tag of the removed version
+stays in the in-memory stack (D1, repaired). -/
+theorem C07_commute_fails_pinned :
+    let m : Spec := ⟨[⟨0, [112], [49], [76], ⟨0, []⟩, .default⟩, ⟨0, [112], [50], [76], ⟨0, []⟩, .default⟩],
+                     [⟨0, current, [112], [76], [49]⟩]⟩
+    (applyMemPinned (.undeclare 0 [112] [49] [76]) m).hasTag 0 current [112] [76] = true ∧
+    (applyDb (.undeclare 0 [112] [49] [76]) m).hasTag 0 current [112] [76] = false :=
+  commute_fails_pinned
+
+/-- **`CacheInv` holds after every history**: in particular every cache file of a stack of the path that is
+at least as new as a product directory agrees with the database on that product. -/
+theorem C07_cache_inv (nst : Nat) (dirs : List DirEnt) (h : List WCmd) :
+    CacheInv (runHistory (World.init nst dirs) h) := history_inv nst dirs h
+
+/-- **A cache file that the load rule accepts agrees with the files**, after every history, for every user,
+stack of the path and flavor (the fallback flavor's file too, when a process of that flavor reads it). -/
+theorem C07_accepted_cache_agrees (nst : Nat) (dirs : List DirEnt) (h : List WCmd) (cf : CacheFile)
+    (hc : cf ∈ (runHistory (World.init nst dirs) h).caches) (hs : cf.stack < nst)
+    (ha : accepts (runHistory (World.init nst dirs) h) cf = true) :
+    AgreeOn cf.c (runHistory (World.init nst dirs) h).db cf.stack cf.flav := by
+  have hinv := history_inv nst dirs h
+  have hn : (runHistory (World.init nst dirs) h).nst = nst := history_nst _ h
+  exact accepts_agree hinv hc (by rw [hn]; exact hs) ha
+
+/-- **C07, native-flavor queries** (`C07_agree_partial`; hypothesis: the query concerns the native flavor of
+the querying process — the excluded class is D16).  After every history, what a fresh process of any user `u`
+and flavor `self` holds in memory for the declarations and tags of flavor `self`, in every stack of the path,
+is what the files say. -/
+theorem C07_agree_partial (nst : Nat) (dirs : List DirEnt) (h : List WCmd) (u : User) (self : Flav)
+    (s : Nat) (hs : s < (runHistory (World.init nst dirs) h).nst) :
+    AgreeOn (viaCache (runHistory (World.init nst dirs) h) u self) (runHistory (World.init nst dirs) h).db s self :=
+  (load_inv (history_inv nst dirs h) u self).2 s hs
+
+/-- **The four queries of the property, native flavor** (`self`), any user, any stack of the path, after any
+history: *is (n, v) declared*, *where is it* (the declaration found: directory and table), *which tags does it
+carry*, *which version has tag t* — through the cache and through the files. -/
+theorem C07_queries_agree_partial (nst : Nat) (dirs : List DirEnt) (h : List WCmd) (u : User) (self : Flav)
+    (s : Nat) (hs : s < (runHistory (World.init nst dirs) h).nst) (n : Name) (v : Ver) (t : Tag) :
+    let w := runHistory (World.init nst dirs) h
+    (viaCache w u self).hasDecl s n v self = w.db.hasDecl s n v self ∧
+    (viaCache w u self).findDecl s n v self = w.db.findDecl s n v self ∧
+    (∀ d : Decl, d.stack = s → d.flav = self → d.name = n →
+        ∀ t', t' ∈ (viaCache w u self).tagsOf d ↔ t' ∈ w.db.tagsOf d) ∧
+    (viaCache w u self).tagVer s t n self = w.db.tagVer s t n self := by
+  intro w
+  have hag := C07_agree_partial nst dirs h u self s hs n
+  have hku := (history_inv nst dirs h).dbinv.ku
+  refine ⟨hag.hasDecl v, findDecl_agree hag hku v, ?_, tagVer_agree hag hku t⟩
+  intro d h1 h2 h3 t'
+  simp only [Spec.tagsOf, List.mem_map, List.mem_filter]
+  constructor
+  · rintro ⟨r, ⟨hr, hp⟩, rfl⟩
+    have k := TagRec.pointsAt_iff.mp hp
+    exact ⟨r, ⟨(hag.2 r (k.1.trans h1) (k.2.2.1.trans h2) (k.2.1.trans h3)).mp hr, hp⟩, rfl⟩
+  · rintro ⟨r, ⟨hr, hp⟩, rfl⟩
+    have k := TagRec.pointsAt_iff.mp hp
+    exact ⟨r, ⟨(hag.2 r (k.1.trans h1) (k.2.2.1.trans h2) (k.2.1.trans h3)).mpr hr, hp⟩, rfl⟩
+
+/-! ### a missing, older or crash-orphaned cache is rebuilt, not believed -/
+
+/-- missing cache file: the in-memory stack is rebuilt from the database (`refreshFromDatabase`) -/
+theorem C07_stale_cache_rebuilt_missing (w : World) (u : User) (self : Flav) (s : Nat)
+    (h : w.findCache u s self = none) : (loadStack w u self s).view = snapshot w.db s := by
+  unfold loadStack; simp [h]
+
+/-- cache file older than a version file, chain file or product directory of the stack, or naming other
+products than the database: rebuilt -/
+theorem C07_stale_cache_rebuilt_older (w : World) (u : User) (self : Flav) (s : Nat) (cf : CacheFile)
+    (h : w.findCache u s self = some cf) (hold : accepts w cf = false) :
+    (loadStack w u self s).view = snapshot w.db s := by
+  unfold loadStack; simp [h, hold]
+
+/-- a rebuilt stack is the database: every flavor of the stack, exactly -/
+theorem C07_rebuilt_is_database (db : Spec) (hdb : NoDangling db) (s : Nat) (f : Flav) :
+    AgreeOn (snapshot db s) db s f := snapshot_agree hdb s f
+
+/-- crash-orphaned cache: after the `Database` mutation of an effect (the process dies before its cache
+update) no cache file of the stack is accepted as long as the product directory written to exists — whoever
+wrote the cache file, whenever -/
+theorem C07_crash_orphaned_cache_rejected (w : World) (h : CacheInv w) (e : Eff) (s : Nat) (n : Name)
+    (hk : effKey e = some (s, n)) (hw : effWrites w.db e = true)
+    (hex : ((applyDb e w.db).decls.any fun d => d.stack == s && d.name == n) = true)
+    (cf : CacheFile) (hc : cf ∈ (applyDbW w e).caches) (hs : cf.stack = s) :
+    accepts (applyDbW w e) cf = false := by
+  have hcaches : (applyDbW w e).caches = w.caches := by simp [applyDbW, hk, hw]
+  have htouch : (⟨s, n, w.now⟩ : Touch) ∈ (applyDbW w e).touch := by
+    simp only [applyDbW, hk, hw, if_true, hex]
+    exact mem_setTouch.mpr (Or.inl ⟨w.now, rfl, rfl⟩)
+  have hlt := h.cache_time cf (hcaches ▸ hc)
+  cases hacc : accepts (applyDbW w e) cf with
+  | false => rfl
+  | true =>
+    exfalso
+    simp only [accepts, Bool.and_eq_true] at hacc
+    have := (upToDate_iff _ _ _).mp hacc.1 _ htouch hs.symm
+    exact Nat.lt_irrefl _ (Nat.lt_of_le_of_lt this hlt)
+
+/-! ### witnesses -/
+
+def p : Name := [112]
+def L : Flav := [76]
+def dir (f : Flav) (v : Ver) : Dir := ⟨0, relDir f p v⟩
+def dirs : List DirEnt := [⟨dir L [49], p⟩, ⟨dir L [50], p⟩, ⟨dir generic [49], p⟩]
+def declareCmd (f : Flav) (v : Ver) : Cmd := .declare ⟨f, p, v, some (dir f v), none, false, none, false, false, []⟩
+
+/-- the history of D1: `declare p 1` (becomes current), `declare p 2`, `undeclare p 1`, `declare p 1`, four
+processes of one user -/
+def staleTagHistory : List WCmd :=
+  [.run 0 (declareCmd L [49]) none, .run 0 (declareCmd L [50]) none,
+   .run 0 (.undeclare ⟨L, p, some [49], none, none, false, false, false, none⟩) none, .run 0 (declareCmd L [49]) none]
+
+/-- **D1 (repaired).**  With the pinned `removeVersion` the cache answers "p 1 is current" after that history
+while no chain file exists; with the repair the two agree. -/
+theorem C07_stale_tag_witness :
+    let wp := staleTagHistory.foldl stepPinned (World.init 1 dirs)
+    let wf := runHistory (World.init 1 dirs) staleTagHistory
+    ((viaCache wp 0 L).tagVer 0 current p L = some [49] ∧ wp.db.tagVer 0 current p L = none) ∧
+    ((viaCache wf 0 L).tagVer 0 current p L = none ∧ wf.db.tagVer 0 current p L = none) := by decide
+
+/-- **D16 (open).**  `declare p 1` by a Linux process, `declare p 1` by a generic process, one Linux query (it
+rebuilds and saves both flavors): the next fresh Linux process accepts the cache, loads the native flavor only
+and does not see the `generic` declaration that the files hold.  The unrestricted `C07_agree` is false. -/
+theorem C07_fallback_flavor_witness :
+    let w := runHistory (World.init 1 dirs)
+      [.run 0 (declareCmd L [49]) none, .run 0 (declareCmd generic [49]) none, .run 0 (.query L) none]
+    (viaCache w 0 L).hasDecl 0 p [49] generic = false ∧ w.db.hasDecl 0 p [49] generic = true ∧
+    ((load w 0 L).2.1 = [[L]]) := by decide
+
+/-! ### non-vacuity -/
+
+/-- the hypotheses of `C07_accepted_cache_agrees` are met by a real cache file: after `declare p 1` the
+user's Linux cache of stack 0 exists and is accepted -/
+example :
+    let w := runHistory (World.init 1 dirs) [.run 0 (declareCmd L [49]) none]
+    (w.caches.any fun cf => cf.stack == 0 && accepts w cf) = true := by decide
+
+/-- a crash leaves the orphaned cache rejected: `declare p 1`, then `declare p 2` killed after
+`Database.declare`: the cache of stack 0 is not accepted, and the rebuilt view holds both versions -/
+example :
+    let w := runHistory (World.init 1 dirs) [.run 0 (declareCmd L [49]) none, .run 0 (declareCmd L [50]) (some 1)]
+    (w.caches.all fun cf => !(accepts w cf)) = true ∧ (viaCache w 0 L).hasDecl 0 p [50] L = true := by decide
+
+end EupsModel.C07
